@@ -1,3 +1,4 @@
+#![allow(static_mut_refs, unused_imports, dead_code, unused_unsafe)]
 // Kani harnesses for src/blowfish/mod.rs (child module: sees Blowfish{p,s}, f, encrypt_pair, ...).
 use super::*;
 use crate::verif_support::gen_pi;
